@@ -20,6 +20,8 @@ RULE = (
     "order are reproduced (1e-10); an integer constant shift is x[clip(n+s,0,N-1)] everywhere; zero shift returns the "
     "input; constant and time-varying paths agree on the common interior (1e-12); no exception for any shift vector; "
     "(c) df_timeshift == timeshift(column, seconds*fs) for the selected numeric columns, other columns untouched, "
+    "suffix/inplace/truncate semantics; shifts are spelled as python floats, numpy float64/float32 scalars (float32 "
+    "vectors) or python ints, and the reference uses the value the argument denotes; next: "
     "suffix/inplace/truncate semantics. Non-trivial: order>=3 with a non-integer shift and >=1 interior sample; "
     "negative shifts are counted as a class."
 )
